@@ -14,7 +14,8 @@ if [ "$(jq -r .property "$1" 2>/dev/null)" = "C11" ]; then
   VERIF_REPLAY="$(readlink -f "$1")" "$BIN" -test.count=1 2>&1 | grep -v '^PASS$\|^ok '
   exit "${PIPESTATUS[0]}"
 fi
-if [ "$(jq -r '.case.kind // ""' "$1" 2>/dev/null)" = "worker-lease" ]; then
+CKIND="$(jq -r '.case.kind // ""' "$1" 2>/dev/null)"
+if [ "$CKIND" = "worker-lease" ] || [ "$CKIND" = "lease-boundary" ]; then
   # worker-side part of C15 (testing/synctest): the test binary re-runs the one recorded case
   go1.26.8 test -vet=off -tags verif -overlay "$OVLJSON" -c -o "$BIN" ./checks/c15w/ || exit 2
   OUT="$OVLDIR/c15w.json"
